@@ -328,6 +328,8 @@ func genSource(cases []caseSpec) string {
 	for i, c := range cases {
 		fmt.Fprintf(&b, "func Case%d() {\n\tverbose = %v\n\th = 0\n\tF%d(%d, %d, %d)\n}\n\n", i, c.Verbose, fidx[c.F], c.Lo, c.Hi, c.Bl)
 	}
+	// no-op case: instantiates the module (and builds the domains) outside the per-case horizons
+	fmt.Fprintf(&b, "func Case%d() {\n\tinitDoms()\n}\n", len(cases))
 	return b.String()
 }
 
@@ -340,7 +342,7 @@ type program struct {
 }
 
 func newProgram(cases []caseSpec, horizon time.Duration) *program {
-	return &program{Program: &hrun.Program{Src: genSource(cases), N: len(cases), Horizon: horizon}, cases: cases}
+	return &program{Program: &hrun.Program{Src: genSource(cases), N: len(cases) + 1, Warm: true, Horizon: horizon}, cases: cases}
 }
 
 func runAll(r *mc.Run, pool *mc.Pool, ps []*program, stopFirst, obeyDeadline bool) {
@@ -535,6 +537,9 @@ func main() {
 					r.Evals.Add(ne)
 					if wl[bi] == gline {
 						r.Distinct(gline)
+						if bi == 0 && c.Lo == 0 && r.WantSample() {
+							r.Sample(map[string]interface{}{"function": c.F.Name, "tuples": []int64{lo, hi}, "go_and_wa_line(hash, evaluated)": gline})
+						}
 						continue
 					}
 					bad = append(bad, badBlock{f: c.F, lo: lo, hi: hi, why: "mismatch", detail: "Go " + gline + " / Wa " + wl[bi]})
@@ -578,7 +583,8 @@ func main() {
 			order = append(order, b.f)
 		}
 		if len(byFn[b.f]) >= maxBlocksPerFn {
-			r.Cap(fmt.Sprintf("verbose refinement limited to the first %d differing blocks of a function", maxBlocksPerFn))
+			// every tuple has been compared (by hash); only the tuple-by-tuple listing is limited
+			r.Extra("listing_limited", fmt.Sprintf("tuple-by-tuple listing limited to the first %d differing blocks / %d single-tuple cases of a function", maxBlocksPerFn, maxSingles))
 			continue
 		}
 		byFn[b.f] = append(byFn[b.f], b)
@@ -645,7 +651,7 @@ func refineFn(r *mc.Run, pool *mc.Pool, f *fn, blocks []badBlock) bool {
 				singles = append(singles, span{c.Lo, c.Hi})
 				continue
 			}
-			next, rep := compareVerbose(r, f, p.Src, g.Out, w.Out, w.Status, w.Err)
+			next, rep := compareVerbose(r, pool, f, p.Src, g.Out, w.Out, w.Status, w.Err)
 			reported = reported || rep
 			if next >= 0 && next < c.Hi {
 				singles = append(singles, span{next, c.Hi})
@@ -659,7 +665,7 @@ func refineFn(r *mc.Run, pool *mc.Pool, f *fn, blocks []badBlock) bool {
 	for _, sp := range singles {
 		for t := sp.lo; t < sp.hi; t++ {
 			if len(cs) >= maxSingles {
-				r.Cap(fmt.Sprintf("verbose refinement limited to %d single-tuple cases per function", maxSingles))
+				r.Extra("listing_limited", fmt.Sprintf("tuple-by-tuple listing limited to the first %d differing blocks / %d single-tuple cases of a function", maxBlocksPerFn, maxSingles))
 				break
 			}
 			cs = append(cs, caseSpec{F: f, Lo: t, Hi: t + 1, Bl: 1, Verbose: true})
@@ -680,7 +686,7 @@ func refineFn(r *mc.Run, pool *mc.Pool, f *fn, blocks []badBlock) bool {
 		if w.Status == "skipped" {
 			continue
 		}
-		_, rep := compareVerbose(r, f, p.Src, g.Out, w.Out, w.Status, w.Err)
+		_, rep := compareVerbose(r, pool, f, p.Src, g.Out, w.Out, w.Status, w.Err)
 		reported = reported || rep
 	}
 	return reported
@@ -688,7 +694,7 @@ func refineFn(r *mc.Run, pool *mc.Pool, f *fn, blocks []badBlock) bool {
 
 // compareVerbose compares verbose outputs line by line; returns the tuple index to continue
 // from when Wa stopped early (trap/hang), -1 when the range was completed.
-func compareVerbose(r *mc.Run, f *fn, src, goOut, waOut, waStatus, waErr string) (next int64, reported bool) {
+func compareVerbose(r *mc.Run, pool *mc.Pool, f *fn, src, goOut, waOut, waStatus, waErr string) (next int64, reported bool) {
 	gl := strings.Split(strings.TrimRight(goOut, "\n"), "\n")
 	wl := strings.Split(waOut, "\n")
 	if len(wl) > 0 && wl[len(wl)-1] == "" && waStatus == "ok" {
@@ -720,6 +726,22 @@ func compareVerbose(r *mc.Run, f *fn, src, goOut, waOut, waStatus, waErr string)
 		} else if waStatus == "crash" {
 			what = "takes the engine process down (" + waErr + ")"
 			cls = "engine-crash"
+		}
+		if waStatus != "trap" {
+			// a verdict that rests on a horizon or on a dead process: 5 more runs of this tuple alone
+			same := 0
+			for k := 0; k < 5; k++ {
+				p := newProgram([]caseSpec{{F: f, Lo: t, Hi: t + 1, Bl: 1, Verbose: true}}, singleHorizon)
+				runAll(r, pool, []*program{p}, false, false)
+				if p.GoErr == nil && p.WaErr == "" && p.Wa.Res[0].Status == waStatus {
+					same++
+				}
+			}
+			if same != 5 {
+				r.HarnessError("%s(%s): %s in the block run but only in %d of 5 runs on its own (flaky, not reported)", f.Name, showTokens(args), waStatus, same)
+				return t + 1, reported
+			}
+			what += " (6/6 runs)"
 		}
 		key := "C14|" + f.Name + "|" + classes(f, args) + "|" + cls
 		r.Report(key, fmt.Sprintf("%s(%s): Go returns %s, Wa %s", f.Name, showTokens(args), showTokens(gres), what),
